@@ -585,7 +585,7 @@ def adaptive_ranks(n, r0, r, r_add, m, lamb, weighted, nswp, seed, kind, opt=Non
     return check(msg is None, msg)
 
 
-@clause('C07.als.adaptive_use_stab', funcs=('als.als', 'als._optimize_core_adaptive', 'transformation.orthogonalize'))
+@clause('C07.als.adaptive_use_stab', funcs=('als.als', 'als._optimize_core_adaptive', 'transformation.orthogonalize'), replay_only=True)
 def adaptive_use_stab(n, r0, r, m, lamb, nswp, seed, kind):
     """Rank-adaptive mode with the documented flag use_stab=True ("the rank-adaptive method will use additional
     stabilization of the cores"): same contract as C07.als.adaptive_ranks."""
@@ -626,7 +626,7 @@ def _swap_run(n, r0, r, m, lamb, nswp, seed, kind, vld):
     return PASS if swaps else TRIVIAL('no mode swap happened')
 
 
-@clause('C07.als.adaptive_swap', funcs=('als.als', 'als._optimize_core_adaptive'))
+@clause('C07.als.adaptive_swap', funcs=('als.als', 'als._optimize_core_adaptive'), replay_only=True)
 def adaptive_swap(n, r0, r, m, lamb, nswp, seed, kind):
     """Rank-adaptive mode with allow_swap=True: a well-formed finite tensor whose mode sizes are a reordering of
     the original ones, ranks <= r, info as specified, training data untouched.  (Validation data are given and
@@ -634,13 +634,13 @@ def adaptive_swap(n, r0, r, m, lamb, nswp, seed, kind):
     return _swap_run(n, r0, r, m, lamb, nswp, seed, kind, 'zeros')
 
 
-@clause('C07.als.adaptive_swap_vld', funcs=('als.als',))
+@clause('C07.als.adaptive_swap_vld', funcs=('als.als',), replay_only=True)
 def adaptive_swap_vld(n, r0, r, m, lamb, nswp, seed, kind):
     """The same with general validation multi-indices (modes of different size)."""
     return _swap_run(n, r0, r, m, lamb, nswp, seed, kind, 'random')
 
 
-@clause('C07.als.adaptive_swap_no_vld', funcs=('als.als',))
+@clause('C07.als.adaptive_swap_no_vld', funcs=('als.als',), replay_only=True)
 def adaptive_swap_no_vld(n, r0, r, m, lamb, nswp, seed, kind):
     """The same without validation data (I_vld / y_vld are optional)."""
     return _swap_run(n, r0, r, m, lamb, nswp, seed, kind, None)
